@@ -271,4 +271,30 @@ impl ResponseCodec for NamespaceData {
 #[allow(unused_imports, missing_docs, dead_code, unreachable_pub)]
 pub mod verif {
     use super::*;
+
+    /// class of a `CodecError` plus its message
+    pub fn error_class(e: &CodecError) -> (&'static str, String) {
+        match e {
+            CodecError::RequestDecode(s) => ("RequestDecode", s.clone()),
+            CodecError::ResponseDecode(s) => ("ResponseDecode", s.clone()),
+            CodecError::ResponseVerification(s) => ("ResponseVerification", s.clone()),
+        }
+    }
+
+    /// `<ExtendedDataSquare as ResponseCodec>::decode_and_verify`
+    pub fn eds_decode_and_verify(
+        raw_data: &[u8],
+        height: u64,
+        dah: &DataAvailabilityHeader,
+        app_version: AppVersion,
+    ) -> std::result::Result<ExtendedDataSquare, (&'static str, String)> {
+        let id = EdsId::new(height).map_err(|e| ("BadId", e.to_string()))?;
+        <ExtendedDataSquare as ResponseCodec>::decode_and_verify(raw_data, &id, dah, app_version)
+            .map_err(|e| error_class(&e))
+    }
+
+    /// `<ExtendedDataSquare as ResponseCodec>::encode`
+    pub fn eds_encode(eds: &ExtendedDataSquare) -> Vec<u8> {
+        <ExtendedDataSquare as ResponseCodec>::encode(eds)
+    }
 }
